@@ -479,19 +479,19 @@ REQUIRED_LABELS = {t: ["kind:write", "kind:read", "kind:timeout", "repaired",
 
 def stages(tier):
     return [EnumStage("cells", cells, run_case, exhaustive={"quick": True, "thorough": True},
-                      budget_s={"quick": 120, "thorough": 600}),
+                      budget_s={"quick": 360, "thorough": 600}),
             EnumStage("other-transports", transport_cells, run_transport_case,
                       exhaustive={"quick": True, "thorough": True},
-                      budget_s={"quick": 60, "thorough": 120}),
+                      budget_s={"quick": 180, "thorough": 120}),
             EnumStage("repair-faults", repair_fault_cells, run_repair_fault,
                       exhaustive={"quick": True, "thorough": True},
-                      budget_s={"quick": 60, "thorough": 300}),
+                      budget_s={"quick": 180, "thorough": 300}),
             EnumStage("comes-back-unfit", unfit_cases, run_unfit,
                       exhaustive={"quick": True, "thorough": True},
-                      budget_s={"quick": 60, "thorough": 120}),
+                      budget_s={"quick": 180, "thorough": 120}),
             EnumStage("power-cycled", power_cycle_cases, run_power_cycle,
                       exhaustive={"quick": True, "thorough": True},
-                      budget_s={"quick": 60, "thorough": 120}),
+                      budget_s={"quick": 180, "thorough": 120}),
             HypStage("histories", lambda t: histories(t), run_history,
                      {"quick": 100, "thorough": 1500},
-                     budget_s={"quick": 60, "thorough": 600})]
+                     budget_s={"quick": 180, "thorough": 600})]
